@@ -46,14 +46,29 @@ type parseIn struct {
 type parseObs struct {
 	Mask uint32 `json:"mask"`
 	Err  bool   `json:"err"`
+	// MustParseEventMask on the same arguments: the same mask, or a panic exactly when
+	// ParseEventMask reports an error
+	MustMask  uint32 `json:"must_mask"`
+	MustPanic bool   `json:"must_panic"`
 }
 
 func runParse(in parseIn) parseObs {
+	var o parseObs
+	func() {
+		defer func() {
+			if recover() != nil {
+				o.MustPanic = true
+			}
+		}()
+		o.MustMask = uint32(int32(api.MustParseEventMask(in.Events...)))
+	}()
 	m, err := api.ParseEventMask(in.Events...)
 	if err != nil {
-		return parseObs{Err: true}
+		o.Err = true
+		return o
 	}
-	return parseObs{Mask: uint32(int32(m))}
+	o.Mask = uint32(int32(m))
+	return o
 }
 
 type bitsIn struct {
